@@ -49,6 +49,17 @@ type Scenario struct {
 	//   3  O.Clone() and X.Clone(), X unrelated      (clones made one after the other)
 	Variant int         `json:"variant,omitempty"`
 	X       *mgeom.Geom `json:"x,omitempty"`
+	// BHow selects how a Bounds is brought into being before it is cloned:
+	//   0  NewBounds(layout of G).Extend(G)
+	//   1  G.Bounds()
+	//   2  NewBounds(BL0).Extend(G), BL0 another layout (promotion on the way)
+	//   3  NewBounds(layout of G).Set(BArgs...), BArgs for any number of dimensions
+	//      (Set widens min/max beyond the layout when given more)
+	//   4  the zero value &geom.Bounds{}
+	//   5  NewBounds(layout of G).SetCoords(first half of BArgs, second half)
+	BHow  int         `json:"bhow,omitempty"`
+	BL0   int         `json:"bl0,omitempty"`
+	BArgs mgeom.Coord `json:"bargs,omitempty"`
 }
 
 type prop struct{}
@@ -110,6 +121,17 @@ func (prop) Decode(raw []byte) (any, error) {
 	case s.Kind == "Bounds":
 		if s.G == nil || !isGeomKind(s.G.T) || s.G.L < 1 || s.G.L > 4 {
 			return nil, fmt.Errorf("bad bounds source")
+		}
+		if s.BHow < 0 || s.BHow > 5 || s.BL0 < 0 || s.BL0 > 4 || len(s.BArgs) > 12 || len(s.BArgs)%2 != 0 {
+			return nil, fmt.Errorf("bad bounds construction")
+		}
+		if s.BHow == 5 && len(s.BArgs) != 2*mgeom.Stride(s.G.L) {
+			return nil, fmt.Errorf("SetCoords needs two coordinates of the layout")
+		}
+		for _, v := range s.BArgs {
+			if math.IsNaN(float64(v)) {
+				return nil, fmt.Errorf("NaN in bounds construction")
+			}
 		}
 	default:
 		return nil, fmt.Errorf("bad kind %q", s.Kind)
@@ -191,6 +213,19 @@ func (prop) Generate(r *prng.Rand, phase string) any {
 			l = 4
 		}
 		s.G = cfg.Gen(r, cloneable[r.Intn(4)], l, 0)
+		s.BHow = r.Pick(4, 2, 3, 4, 1, 2)
+		switch s.BHow {
+		case 2:
+			s.BL0 = r.Intn(5)
+		case 3:
+			for j := 2 * r.Range(0, 6); j > 0; j-- {
+				s.BArgs = append(s.BArgs, mgeom.F(r.SmallFloat()))
+			}
+		case 5:
+			for j := 2 * mgeom.Stride(l); j > 0; j-- {
+				s.BArgs = append(s.BArgs, mgeom.F(r.SmallFloat()))
+			}
+		}
 	}
 	var kinds []string
 	switch s.Kind {
@@ -1004,11 +1039,19 @@ type bmodel struct {
 	min, max []float64
 }
 
+// observeBounds reads a box through its public observers only. The number of
+// dimensions a box holds is not necessarily the stride of its layout (Set
+// widens min/max without touching the layout), so dimensions are probed until
+// Min/Max refuse.
 func observeBounds(b *geom.Bounds) *bmodel {
 	m := &bmodel{l: int(b.Layout())}
-	for i := 0; i < b.Layout().Stride(); i++ {
-		m.min = append(m.min, b.Min(i))
-		m.max = append(m.max, b.Max(i))
+	for i := 0; i < 16; i++ {
+		var lo, hi float64
+		if p := core.Guard(func() { lo, hi = b.Min(i), b.Max(i) }); p != "" {
+			break
+		}
+		m.min = append(m.min, lo)
+		m.max = append(m.max, hi)
 	}
 	return m
 }
@@ -1017,8 +1060,11 @@ func (a *bmodel) diff(b *bmodel) string {
 	if a.l != b.l {
 		return fmt.Sprintf("layout %d != %d", a.l, b.l)
 	}
+	if len(a.min) != len(b.min) {
+		return fmt.Sprintf("%d dimensions %v..%v != %d dimensions %v..%v", len(a.min), a.min, a.max, len(b.min), b.min, b.max)
+	}
 	for i := range a.min {
-		if a.min[i] != b.min[i] || a.max[i] != b.max[i] {
+		if math.Float64bits(a.min[i]) != math.Float64bits(b.min[i]) || math.Float64bits(a.max[i]) != math.Float64bits(b.max[i]) {
 			return fmt.Sprintf("dimension %d: [%g,%g] != [%g,%g]", i, a.min[i], a.max[i], b.min[i], b.max[i])
 		}
 	}
@@ -1034,7 +1080,38 @@ func execBounds(s *Scenario, phase string, log *core.Log) core.Result {
 		return res
 	}
 	st := mgeom.Stride(src.L)
-	o := geom.NewBounds(geom.Layout(src.L)).Extend(g)
+	var o *geom.Bounds
+	args := make([]float64, len(s.BArgs))
+	for i, v := range s.BArgs {
+		args[i] = float64(v)
+	}
+	if p := core.Guard(func() {
+		switch s.BHow {
+		case 1:
+			o = g.Bounds()
+		case 2:
+			o = geom.NewBounds(geom.Layout(s.BL0)).Extend(g)
+		case 3:
+			o = geom.NewBounds(geom.Layout(src.L)).Set(args...)
+		case 4:
+			o = &geom.Bounds{}
+		case 5:
+			o = geom.NewBounds(geom.Layout(src.L)).SetCoords(geom.Coord(args[:st]), geom.Coord(args[st:]))
+		default:
+			o = geom.NewBounds(geom.Layout(src.L)).Extend(g)
+		}
+	}); p != "" {
+		res.Fail("panic", "panic:bounds-setup:"+core.PanicSite(p), "bringing the box into being (how=%d) panicked: %s", s.BHow, p)
+		return res
+	}
+	res.Count(fmt.Sprintf("bounds-how:%d", s.BHow), 1)
+	// The owners' programs assume a box of the source layout holding exactly
+	// that layout's dimensions; on any other box only the clone itself is
+	// checked (what Set/Extend do to an over- or under-wide box is not stated).
+	plain := int(o.Layout()) == src.L && len(observeBounds(o).min) == st
+	if !plain {
+		res.Count("probe:bounds-dims!=layout-stride-or-promoted", 1)
+	}
 	var c *geom.Bounds
 	if p := core.Guard(func() { c = o.Clone() }); p != "" {
 		res.Fail("panic", "panic:clone:"+core.PanicSite(p), "Bounds.Clone panicked: %s", p)
@@ -1049,6 +1126,28 @@ func execBounds(s *Scenario, phase string, log *core.Log) core.Result {
 	mutated := [2]bool{}
 	apply := func(w int, m Mut) string {
 		return core.Guard(func() {
+			if !plain {
+				// Only Set with no more dimensions than the box's layout and
+				// its min/max hold has a stated meaning on such a box: it
+				// writes those dimensions in place and nothing else. That is
+				// enough for shared storage to show.
+				if m.K != "bset" || len(m.C) != st || len(m.C2) != st || st > objs[w].Layout().Stride() || st > len(models[w].min) {
+					return
+				}
+				args := make([]float64, 0, 2*st)
+				for _, v := range m.C {
+					args = append(args, float64(v))
+				}
+				for _, v := range m.C2 {
+					args = append(args, float64(v))
+				}
+				objs[w].Set(args...)
+				for i := 0; i < st; i++ {
+					models[w].min[i], models[w].max[i] = float64(m.C[i]), float64(m.C2[i])
+				}
+				mutated[w] = true
+				return
+			}
 			switch m.K {
 			case "bset":
 				if len(m.C) != st || len(m.C2) != st {
